@@ -21,7 +21,7 @@ func Specs() []kernel.Spec {
 		{Prop: "C08ext", Mk: New(Mode{Prop: "C08", External: true, Faults: true, BadReqs: true, Reads: true, Submits: true, Oracle: oracleC08}), Limits: lim},
 		{Prop: "C06ext", Mk: New(Mode{Prop: "C06", External: true, StoreFaults: true, Submits: true, Reads: true, Oracle: oracleC06, Final: finalC06}), Limits: lim},
 		// the get-entries oracle against an instance that keeps issuance chains outside the backend (store / cache faults at any call)
-		{Prop: "C07ext", Mk: New(Mode{Prop: "C07", External: true, Submits: true, Reads: true, BadReqs: true, Boundary: true, ReadWeights: []int{1, 0, 0, 8, 3, 0}, Oracle: oracleC07}), Limits: lim},
+		{Prop: "C07ext", Mk: New(Mode{Prop: "C07", External: true, StoreFaults: true, Submits: true, Reads: true, BadReqs: true, Boundary: true, ReadWeights: []int{1, 0, 0, 8, 3, 0}, Oracle: oracleC07}), Limits: lim},
 		{Prop: "C14", Mk: New(Mode{Prop: "C14", External: true, Submits: true, Reads: true, ReadWeights: []int{1, 0, 0, 8, 4, 0}, Oracle: oracleC14, Final: finalC14}), Limits: lim},
 		{Prop: "C15", Mk: NewCfg(), Limits: lim},
 		{Prop: "C08sweep", Mk: NewSweep(), Limits: lim, Cases: len(SweepCases())},
